@@ -252,6 +252,30 @@ impl Prop for C19 {
                   [2, 3, 0xff, 0xff, 0xff, 0xff, 0xff, 0xff], [1, 2, 0, 0, 0, 0, 0, 0], [1, 3, 255, 255, 255, 255, 255, 255], [1, 2, 10, 100, 200, 9, 0, 99]] {
             v.push(format!("ext {}", hex(&r)));
         }
+        // zero octets in the MIDDLE: the hex text then reads as a shorter text followed by zeros and a few digits - e.g. the
+        // text of ff ff 00 00 00 00 xx yy is `0xffff` + zeros + xxyy, which a lenient parser of the `0xFFFFnnnn` form of an
+        // unrecognised well-known standard community would take (round-7 seed: Community::from_str tries Standard first)
+        for _ in 0..200 * k {
+            let mut r = rng.bytes(8);
+            if rng.chance(1, 2) { r[0] = 0xff; r[1] = 0xff; }
+            let (i, j) = { let i = rng.usize(1, 5); (i, rng.usize(i + 1, 7)) };
+            for x in r.iter_mut().take(j).skip(i) { *x = 0; }
+            if (r[0] & 0xbf) <= 2 && (r[1] == 2 || r[1] == 3) { r[1] = 0x0b; }
+            v.push(format!("ext {}", hex(&r)));
+        }
+        for tail in [[0u8, 0x2d], [0, 1], [0xff, 0xff], [0x12, 0x34]] {
+            v.push(format!("ext ffff00000000{}", hex(&tail)));
+            v.push(format!("v6 ffff{}{}", "00".repeat(16), hex(&tail)));
+            v.push(format!("v6 ffff0000{}{}", "00".repeat(12), hex(&[0xff, 0xff, tail[0], tail[1]])));
+        }
+        for _ in 0..100 * k {
+            let mut r = rng.bytes(20);
+            if rng.chance(1, 2) { r[0] = 0xff; r[1] = 0xff; }
+            let (i, j) = { let i = rng.usize(1, 16); (i, rng.usize(i + 1, 19)) };
+            for x in r.iter_mut().take(j).skip(i) { *x = 0; }
+            if r[0] == 0 && r[1] == 2 { r[1] = 0; }
+            v.push(format!("v6 {}", hex(&r)));
+        }
         // large
         for _ in 0..3000 * k {
             let mut r = Vec::new();
